@@ -22,7 +22,7 @@ fn selected() -> Option<String> {
     std::env::var("CBV_FUZZ_PROP").ok().filter(|s| !s.is_empty())
 }
 
-const PROFILES: [Profile; 10] = [
+const PROFILES: [Profile; 20] = [
     Profile::AnySingle,
     Profile::Composed,
     Profile::Composed,
@@ -33,6 +33,16 @@ const PROFILES: [Profile; 10] = [
     Profile::PullCount,
     Profile::FromIterDirect,
     Profile::AnySingle,
+    Profile::Dual(scn::Op::Take),
+    Profile::Dual(scn::Op::Scan),
+    Profile::Dual(scn::Op::Merge),
+    Profile::Dual(scn::Op::Concat),
+    Profile::Dual(scn::Op::Combine),
+    Profile::Dual(scn::Op::Flatten),
+    Profile::Dual(scn::Op::Filter),
+    Profile::Dual(scn::Op::Skip),
+    Profile::LateAny,
+    Profile::LateShare,
 ];
 
 pub fn world_findings(profile: Profile, sc: &scn::Scenario) -> Vec<Finding> {
@@ -54,7 +64,8 @@ pub fn world_findings(profile: Profile, sc: &scn::Scenario) -> Vec<Finding> {
         });
         ok
     };
-    if all_puppets && sc.sinks.len() == 1 && sc.attach_first && sc.sink_kind == scn::SinkKind::Probe {
+    let dual = matches!(profile, Profile::Dual(_));
+    if all_puppets && ((sc.sinks.len() == 1 && sc.attach_first) || dual) && sc.sink_kind == scn::SinkKind::Probe && !matches!(profile, Profile::LateAny | Profile::LateShare) {
         f.extend(models::c07(&cx));
         f.extend(models::c08(&cx));
         f.extend(models::c09(&cx));
@@ -63,9 +74,16 @@ pub fn world_findings(profile: Profile, sc: &scn::Scenario) -> Vec<Finding> {
     }
     match profile {
         Profile::Share => f.extend(models::c12(&cx)),
-        Profile::Indep => f.extend(counts::c13(&cx)),
+        Profile::Indep | Profile::Dual(_) => f.extend(counts::c13(&cx)),
         Profile::PullCount => f.extend(counts::c14(&cx)),
         Profile::FromIterDirect => f.extend(counts::c15(&cx)),
+        _ => {}
+    }
+    // late greeters under operators other than merge! are judged for C01 (and C17 except under share) only:
+    // the other protocol properties are known not to hold there on the unchanged tree (outside their quantifier)
+    match profile {
+        Profile::LateAny => f.retain(|x| x.prop == "C01" || x.prop == "C17"),
+        Profile::LateShare => f.retain(|x| x.prop == "C01"),
         _ => {}
     }
     if !h.harness_errors.is_empty() {
